@@ -213,7 +213,10 @@ def suggest_pattern(description):
     """Generate a suggested regex pattern from a raw description."""
     import re
 
-    desc = description.upper()
+    # Upper-case for readability, but only letters whose upper-case form is a single
+    # character: 'ß'.upper() is 'SS', which the case-insensitive regex no longer
+    # matches against the original description.
+    desc = ''.join(c.upper() if len(c.upper()) == 1 else c for c in description)
 
     # Remove common suffixes that vary
     desc = re.sub(r'\s+\d{4,}.*$', '', desc)  # Remove trailing numbers (store IDs)
